@@ -32,6 +32,8 @@ func TestExploreC35(t *testing.T) {
 			doc = g.InlineSoup(3 + g.R.Intn(10))
 		case "para":
 			doc = g.Inline(2)
+		case "mutate":
+			doc = g.Mutate(g.Doc())
 		case "block":
 			doc = strings.Join(g.Block(1), "\n") + "\n"
 		default:
@@ -61,6 +63,14 @@ func TestExploreC35(t *testing.T) {
 		}
 		if r := refQuirk(doc); r != "" {
 			excluded[r]++
+			continue
+		}
+		if os.Getenv("C35_RELIABLE") != "" && !reliableShape(doc) {
+			excluded["not-reliable-shape"]++
+			continue
+		}
+		if fc := findingClass(doc, ref); fc != "" && os.Getenv("C35_FIXED") == "" {
+			excluded["finding:"+fc]++
 			continue
 		}
 		total++
